@@ -213,7 +213,11 @@ func isNodeSlice(t reflect.Type) bool {
 	}
 	if e.Kind() == reflect.Struct {
 		pp := e.PkgPath()
-		return strings.HasSuffix(pp, "hcl-lang/schema") || strings.HasSuffix(pp, "cty/function")
+		return strings.HasSuffix(pp, "hcl-lang/schema") || strings.HasSuffix(pp, "cty/function") || strings.HasSuffix(pp, "hcl-lang/lang")
+	}
+	// lists of modifiers / hooks have Copy methods of their own and are copied by the schema nodes that hold them
+	if t == reflect.TypeOf(lang.SemanticTokenModifiers{}) || t == reflect.TypeOf(lang.CompletionHooks{}) {
+		return true
 	}
 	return false
 }
